@@ -14,7 +14,7 @@ pub enum Item {
 }
 
 pub struct Scripted {
-    pub script: Mutex<VecDeque<Item>>,
+    pub script: Arc<Mutex<VecDeque<Item>>>,
     pub flag: Arc<AtomicBool>,
     pub recvs: Arc<AtomicUsize>,
 }
@@ -47,6 +47,22 @@ impl Ipc for Scripted {
     }
 }
 
+/// view of the remaining script for the resume loop
+pub struct ScriptLeft(pub Arc<Mutex<VecDeque<Item>>>);
+impl ScriptLeft {
+    fn lock(&self) -> std::sync::LockResult<std::sync::MutexGuard<'_, VecDeque<Item>>> {
+        self.0.lock()
+    }
+}
+trait EmptyScript {
+    fn is_empty_script(&self) -> bool;
+}
+impl EmptyScript for VecDeque<Item> {
+    fn is_empty_script(&self) -> bool {
+        self.is_empty()
+    }
+}
+
 pub fn parse_item(t: &str) -> Option<Item> {
     match t {
         "E" => Some(Item::RecvErr),
@@ -59,6 +75,16 @@ pub fn parse_item(t: &str) -> Option<Item> {
 }
 
 pub fn bkd(args: &[&str]) -> String {
+    bkd_impl(args, false)
+}
+
+/// `BKDR`: as `BKD`, but after a `None` caused by a cleared stop flag the caller sets the flag again and keeps calling
+/// `next()` on the same backend (`NONE` marks each pause); a `None` caused by an undecodable message ends the run (`FAILED`).
+pub fn bkdr(args: &[&str]) -> String {
+    bkd_impl(args, true)
+}
+
+fn bkd_impl(args: &[&str], resume: bool) -> String {
     if args.is_empty() {
         return "BADARG".into();
     }
@@ -73,8 +99,9 @@ pub fn bkd(args: &[&str]) -> String {
     };
     let flag = Arc::new(AtomicBool::new(true));
     let recvs = Arc::new(AtomicUsize::new(0));
+    let script_left = ScriptLeft(Arc::new(Mutex::new(items)));
     let sock = Scripted {
-        script: Mutex::new(items),
+        script: script_left.0.clone(),
         flag: flag.clone(),
         recvs: recvs.clone(),
     };
@@ -83,8 +110,26 @@ pub fn bkd(args: &[&str]) -> String {
     {
         let mut b = Backend::new(sock, flag.clone(), &mut buf[..]);
         let mut guard = 0usize;
-        while let Some((m, a)) = b.next() {
-            out.push(format!("{} {}", a, crate::wire::show_msg(&m, 0)));
+        loop {
+            match b.next() {
+                Some((m, a)) => out.push(format!("{} {}", a, crate::wire::show_msg(&m, 0))),
+                None => {
+                    // `next()` gave up because the stop flag was cleared (script item X, or the script ran out). While
+                    // script items remain the caller resumes: flag set again, `next()` called again on the SAME backend.
+                    if !resume {
+                        break;
+                    }
+                    if flag.load(Ordering::SeqCst) {
+                        out.push("FAILED".into()); // not a stop: the bytes at the cursor do not decode
+                        break;
+                    }
+                    if script_left.lock().unwrap().is_empty_script() {
+                        break;
+                    }
+                    out.push("NONE".into());
+                    flag.store(true, Ordering::SeqCst);
+                }
+            }
             guard += 1;
             if guard > 3_000 {
                 // a receive loop that never ends: answer with the start of the run only
